@@ -63,6 +63,7 @@ func init() {
 }
 
 func runC13(p *chk.Prog, r *chk.Report) {
+	c13SpamScope(p, r)
 	c13Reply(p, r)
 	c13Verdict(p, r)
 	c13Refcount(p, r)
@@ -682,4 +683,80 @@ func c13Groups(p *chk.Prog, r *chk.Report) {
 		}
 		x.Check(name+":"+op+"-at-zero", f.Pos(), okCall, "", op+" is not called exactly when the group's counter is zero")
 	}
+}
+
+// c13SpamScope: the unsolicited announcements of an address go out with the interface scope of its *latest*
+// announcement. Every event taken from spamCh replaces the queued entry of that address with the advertisement just
+// received (an entry that only has its deadline pushed keeps the scope of the first announcement of the burst: a
+// re-announcement on fewer interfaces keeps being advertised on the old ones for five seconds).
+func c13SpamScope(p *chk.Prog, r *chk.Report) {
+	x := r.Rule("SPAM-SCOPE", "B path", "in Announce.spamLoop every way through the case that receives from spamCh stores, under the address's key, an entry built from the advertisement just received", 1)
+	f := need(x, p, "internal/layer2", "Announce", "spamLoop")
+	if f == nil {
+		return
+	}
+	g := f.Graph()
+	var cc *ast.CommClause
+	var recvObj types.Object
+	ast.Inspect(f.Body, func(n ast.Node) bool {
+		c, ok := n.(*ast.CommClause)
+		if !ok {
+			return true
+		}
+		if as, isAs := c.Comm.(*ast.AssignStmt); isAs && len(as.Lhs) >= 1 && len(as.Rhs) == 1 {
+			if u, isU := ast.Unparen(as.Rhs[0]).(*ast.UnaryExpr); isU && u.Op == token.ARROW && f.MatchNew("RECV.spamCh", u.X) != nil {
+				cc = c
+				recvObj = f.ObjOf(as.Lhs[0])
+			}
+		}
+		return true
+	})
+	if cc == nil || recvObj == nil {
+		x.Fail("spamLoop:receive-case", f.Pos(), "no case receiving from spamCh into a variable")
+		return
+	}
+	cb := caseBlock(g, cc)
+	if cb == nil {
+		x.Fail("spamLoop:receive-case-block", cc.Pos(), "receive case not found in the control-flow graph")
+		return
+	}
+	mentions := func(e ast.Expr) bool {
+		found := false
+		ast.Inspect(e, func(m ast.Node) bool {
+			if id, isId := m.(*ast.Ident); isId && f.ObjOf(id) == recvObj {
+				// the value itself, not one field of it
+				if sel, isSel := f.Prog.Parent(id).(*ast.SelectorExpr); isSel && sel.X == ast.Expr(id) {
+					return true
+				}
+				found = true
+			}
+			return !found
+		})
+		return found
+	}
+	store := func(n ast.Node) bool {
+		as, ok := n.(*ast.AssignStmt)
+		if !ok || len(as.Lhs) != 1 || len(as.Rhs) != 1 {
+			return false
+		}
+		ix, isIx := ast.Unparen(as.Lhs[0]).(*ast.IndexExpr)
+		if !isIx {
+			return false
+		}
+		if _, isMap := f.Info().TypeOf(ix.X).Underlying().(*types.Map); !isMap {
+			return false
+		}
+		return mentions(as.Rhs[0])
+	}
+	ends := g.RegionEnds(cb, cc, chk.GEvent(store))
+	ok, pos := len(ends) > 0, cc.Pos()
+	for _, e := range ends {
+		if !e.OK {
+			ok = false
+			if e.From != nil && len(e.From.Nodes) > 0 {
+				pos = e.From.Nodes[len(e.From.Nodes)-1].Pos()
+			}
+		}
+	}
+	x.Check("spamLoop:queued-entry-replaced-by-the-latest-advertisement", pos, ok, "", "an event for an address that is already queued can leave the queued advertisement as it was (only its deadline moves): the gratuitous announcements keep the interface scope of an earlier announcement")
 }
